@@ -7,6 +7,7 @@ fn run_case(case: &Value) -> Result<String, String> {
     let kind = case["kind"].as_str().unwrap_or("");
     match kind {
         "hll_coupons" => Ok(crate::hllm::replay(case)),
+        "cpc_pairs" => Ok(crate::cpcm::replay(case)),
         "hll_two_orders" => {
             let lg_k = case["lg_k"].clone();
             let start: Vec<Value> = case["start"].as_array().cloned().unwrap_or_default();
